@@ -20,6 +20,9 @@ def exact(ctx, name, p, x0, y0, x):
     if name == 'ode_poly':          # y' = 3x^2 + 2a x + b
         P = lambda s: s ** 3 + a * s ** 2 + b * s
         return [y0[0] + P(x) - P(x0)]
+    if name == 'ode_xpow':          # y' = x^m, m = 8a + 2b
+        m = 8 * a + 2 * b
+        return [y0[0] + (x ** (m + 1) - x0 ** (m + 1)) / (m + 1)]
     if name == 'ode_osc':           # y0' = y1, y1' = -a^2 y0
         c, s = ctx.cos(a * t), ctx.sin(a * t)
         return [y0[0] * c + y0[1] / a * s, -y0[0] * a * s + y0[1] * c]
@@ -43,4 +46,4 @@ def growth_L(name, p):
 def dim(name):
     return 2 if name in ('ode_osc', 'ode_tri') else 1
 
-PROBLEMS = ['ode_exp', 'ode_lin', 'ode_rat', 'ode_poly', 'ode_osc', 'ode_tri']
+PROBLEMS = ['ode_exp', 'ode_lin', 'ode_rat', 'ode_poly', 'ode_osc', 'ode_tri', 'ode_xpow']
